@@ -142,4 +142,24 @@ def transportOK (w : W) : List WOp → Prop
   | [] => True
   | op :: ops => fits w op ∧ ∀ w' o, step w op = .ok (w', o) → transportOK w' ops
 
+
+/-- executable form of `fits` / `transportOK` (used to check concrete examples by evaluation) -/
+def fitsb (w : W) : WOp → Bool
+  | .net ev =>
+    match w.curr with
+    | some wb =>
+      (match ev with
+       | .done n => decide (n = wb.datalen)
+       | .fail p => decide (p ≤ wb.datalen))
+    | none => false
+  | _ => true
+
+def transportOKb (w : W) : List WOp → Bool
+  | [] => true
+  | op :: ops =>
+    fitsb w op &&
+    match step w op with
+    | .ok (w', _) => transportOKb w' ops
+    | _ => true
+
 end Percival.Model.NetbufWrite
